@@ -1,3 +1,86 @@
 package sx
 
-func registerExtraModels(P *Program) {}
+import (
+	"fmt"
+	"hash/fnv"
+	"math/big"
+
+	"gabiverif/smt"
+
+	"golang.org/x/tools/go/ssa"
+)
+
+// digestSlice materialises a 32-byte digest whose integer value is h.
+func (ex *Exec) digestSlice(h *smt.Term, n int) Slice {
+	sl := ex.makeSlice(byteType, n, n)
+	for i := 0; i < n; i++ {
+		sl.A.E[i].V = smt.Mod(smt.Div(h, smt.Pow2(uint(8*(n-1-i)))), smt.I64(256))
+	}
+	ex.digests[sl.A] = h
+	return sl
+}
+
+func strCode(s string) BigVal {
+	f := fnv.New64a()
+	f.Write([]byte(s))
+	return BigVal{I: smt.IntC(new(big.Int).SetUint64(f.Sum64()))}
+}
+
+func registerExtraModels(P *Program) {
+	m := P.models
+	// keyshareUserCommitmentsHash: SHA-256 over the CBOR encoding of the challenge
+	// input: an injective function of its structure (uninterpreted hash).
+	m[TargetModule+".keyshareUserCommitmentsHash"] = func(ex *Exec, fn *ssa.Function, args []Value) (Value, bool) {
+		in := args[0].(Slice)
+		hargs := []BigVal{{I: smt.I64(int64(in.Len))}}
+		for i := 0; i < in.Len; i++ {
+			e := ex.load(in.A.E[in.Off+i]).(*Struct)
+			// fields: KeyID *T, Value, Commitment *big.Int, OtherCommitments []*big.Int
+			kid := e.F[0].(Pointer)
+			if kid.C == nil {
+				hargs = append(hargs, BigVal{I: smt.I64(0)})
+			} else {
+				switch k := kid.C.V.(type) {
+				case string:
+					hargs = append(hargs, BigVal{I: smt.I64(1)}, strCode(k))
+				case *smt.Term:
+					hargs = append(hargs, BigVal{I: smt.I64(1)}, BigVal{I: k})
+				default:
+					ex.unsupported("keyshare key id of type %T", kid.C.V)
+				}
+			}
+			for _, f := range []Value{e.F[1], e.F[2]} {
+				if p := f.(Pointer); p.C == nil {
+					hargs = append(hargs, BigVal{I: smt.I64(-1)})
+				} else {
+					hargs = append(hargs, p.C.V.(BigVal))
+				}
+			}
+			oc := e.F[3].(Slice)
+			hargs = append(hargs, BigVal{I: smt.I64(int64(oc.Len))})
+			for k := 0; k < oc.Len; k++ {
+				hargs = append(hargs, ex.argBig(ex.load(oc.A.E[oc.Off+k]), "OtherCommitments"))
+			}
+		}
+		h := ex.hashApply(fmt.Sprintf("keysharehash/%d", len(hargs)), hargs, 256)
+		return Tuple{ex.digestSlice(h, 32), Iface{}}, true
+	}
+	m["crypto/subtle.ConstantTimeCompare"] = func(ex *Exec, fn *ssa.Function, args []Value) (Value, bool) {
+		x, y := args[0].(Slice), args[1].(Slice)
+		if x.Len != y.Len {
+			return smt.I64(0), true
+		}
+		if x.A != nil && y.A != nil {
+			hx, okx := ex.digests[x.A]
+			hy, oky := ex.digests[y.A]
+			if okx && oky && x.Off == 0 && y.Off == 0 && x.Len == len(x.A.E) && y.Len == len(y.A.E) {
+				return smt.Ite(ex.termEq(hx, hy), smt.I64(1), smt.I64(0)), true
+			}
+		}
+		eq := smt.True
+		for i := 0; i < x.Len; i++ {
+			eq = smt.And(eq, smt.Eq(term(ex.load(x.A.E[x.Off+i])), term(ex.load(y.A.E[y.Off+i]))))
+		}
+		return smt.Ite(eq, smt.I64(1), smt.I64(0)), true
+	}
+}
